@@ -114,7 +114,7 @@ def _get_FORCE_SETS_lines_type2(dataset):
     lines = []
     for displacements, forces in zip(dataset["displacements"], dataset["forces"]):
         for d, f in zip(displacements, forces):
-            lines.append(("%15.8f" * 6) % (tuple(d) + tuple(f)))
+            lines.append(" ".join(["%15.8f"] * 6) % (tuple(d) + tuple(f)))
 
     return lines
 
@@ -345,7 +345,7 @@ def get_FORCE_CONSTANTS_lines(force_constants, p2s_map=None):
         for j in range(fc_shape[1]):
             lines.append("%d %d" % (s_i + 1, j + 1))
             for vec in force_constants[i][j]:
-                lines.append(("%22.15f" * 3) % tuple(vec))
+                lines.append(" ".join(["%22.15f"] * 3) % tuple(vec))
 
     return lines
 
